@@ -93,11 +93,7 @@ theorem pyFloat_int_cases (v : Int) :
     · exact Or.inl ⟨_, rfl⟩
     · exact Or.inr rfl
 
-theorem getDouble_int {v : Int} (h : ∀ e, getDouble (.int v) ≠ .error e) :
-    getDouble (.int v) = .ok (.dbl (toD64 v)) := by
-  rcases pyFloat_int_cases v with ⟨e, he⟩ | hok
-  · exact absurd (by simp [getDouble, he, Except.map]) (h e)
-  · simp [getDouble, hok, Except.map]
+theorem getDouble_int (v : Int) : getDouble (.int v) = .ok (.dbl (toD64 v)) := rfl
 
 theorem getDouble_dec (q : Rat) : getDouble (.dec q) = .ok (.dbl (toD64 q)) := by
   simp [getDouble, pyFloat, Except.map]
@@ -118,8 +114,7 @@ set_option maxHeartbeats 1000000 in
 /-- numeric × numeric -/
 theorem valuePair_numeric (m : Mode) (op : Op) (a b : Atom) (i j : Nat)
     (hi : numRank a = some i) (hj : numRank b = some j)
-    (h1 : trigTol true op a b = false) (h2 : trigPromotion true a b = false)
-    (h4 : ∀ e, getDouble a ≠ .error e) (h5 : ∀ e, getDouble b ≠ .error e) :
+    (h1 : trigTol true op a b = false) (h2 : trigPromotion true a b = false) :
     valuePair m op a b = valueOp (binOrdered m) op a b := by
   cases a <;> simp [numRank] at hi <;> cases b <;> simp [numRank] at hj
   case int.int => vpn_simp
@@ -128,21 +123,21 @@ theorem valuePair_numeric (m : Mode) (op : Op) (a b : Atom) (i j : Nat)
   case dec.dec => vpn_simp
   case dbl.flt => vpn_simp
   case flt.dbl => vpn_simp
-  case int.dbl => vpn_simp; rw [getDouble_int h4]; simp [pyOp_dbl_dbl]
+  case int.dbl => vpn_simp; rw [getDouble_int]; simp [pyOp_dbl_dbl]
   case dec.dbl => vpn_simp
-  case dbl.int => vpn_simp; rw [getDouble_int h5]; simp [pyOp_dbl_dbl]
+  case dbl.int => vpn_simp; rw [getDouble_int]; simp [pyOp_dbl_dbl]
   case dbl.dec => vpn_simp
   case int.flt =>
-    simp [trigPromotion, promRank, numRank, exactVal, castNum] at h2
-    vpn_simp; rw [getDouble_int h4]; simp [pyOp_dbl_flt, h2]
+    simp [trigPromotion, numRank, exactVal, castNum] at h2
+    vpn_simp; rw [getDouble_int]; simp [pyOp_dbl_flt, h2]
   case dec.flt =>
-    simp [trigPromotion, promRank, numRank, exactVal, castNum] at h2
+    simp [trigPromotion, numRank, exactVal, castNum] at h2
     vpn_simp; simp [h2]
   case flt.int =>
-    simp [trigPromotion, promRank, numRank, exactVal, castNum] at h2
-    vpn_simp; rw [getDouble_int h5]; simp [pyOp_flt_dbl, h2]
+    simp [trigPromotion, numRank, exactVal, castNum] at h2
+    vpn_simp; rw [getDouble_int]; simp [pyOp_flt_dbl, h2]
   case flt.dec =>
-    simp [trigPromotion, promRank, numRank, exactVal, castNum] at h2
+    simp [trigPromotion, numRank, exactVal, castNum] at h2
     vpn_simp; simp [h2]
   case flt.flt x y =>
     simp [trigTol] at h1
@@ -232,18 +227,17 @@ theorem durCmp4_dtd (op : Op) (s t : Int) : durCmp4 op (0, s) (0, t) = iCmp op s
 set_option maxHeartbeats 2000000 in
 /-- VALUE COMPARISON vs SPECIFICATION, every pair of atoms (no untypedAtomic: get_atomized_operand has
 turned it into a string), every operator, every 2.0+ mode: outside the triggers of F07 (tolerance) and
-F07-promotion, and unless an integer overflows the double range, the code's lattice +
+F07-promotion the code's lattice +
 Python operator gives exactly the outcome of XPath 3.1 §3.7.1 — the same boolean, or XPTY0004 on
 exactly the incomparable type pairs. -/
 theorem valuePair_conforms (m : Mode) (op : Op) (a b : Atom) (hua : isUA a = false) (hub : isUA b = false)
     (h1 : trigTol true op a b = false) (h2 : trigPromotion true a b = false)
-    (h4 : ∀ e, getDouble a ≠ .error e) (h5 : ∀ e, getDouble b ≠ .error e)
     (h8 : dtConsistent a b = true) :
     valuePair m op a b = valueOp (binOrdered m) op a b := by
   cases hi : numRank a with
   | some i =>
     cases hj : numRank b with
-    | some j => exact valuePair_numeric m op a b i j hi hj h1 h2 h4 h5
+    | some j => exact valuePair_numeric m op a b i j hi hj h1 h2
     | none =>
       cases a <;> simp [numRank] at hi <;> cases b <;> simp [numRank] at hj <;> vp_simp
   | none =>
